@@ -126,13 +126,15 @@ except (OSError, ValueError):
     _DEFAULTS = {}
 _RECORD = None
 SOFT_MISSED = []
+# anchors whose fact is tied by the translator ALONE (code in main() that no correspondence run executes) stay hard
+HARD_ANCHORS = ('netmask range check (max)', 'netmask range check (min)')
 
 
 def anchored_int(text, pattern, what, fname):
     m = re.search(pattern, text, flags=re.S)
     if not m:
         d = _DEFAULTS.get('anchors', {})
-        if what not in d:
+        if what not in d or what in HARD_ANCHORS:
             raise TranslatorError('translator: anchor %s not found in %s' % (what, fname))
         SOFT_MISSED.append('%s (%s)' % (what, fname))
         v = d[what]
